@@ -455,6 +455,22 @@ func limFamily() []Pat {
 		`\bfoo\b`, `foo\b.`, `^abc$`, `abc$`, `\Aabc\z`, `(?m)^abc$`, `(?m)abc$\n?d`} {
 		add(`%s`, s)
 	}
+	// G. literals of 2, 3 and 4 UTF-8 bytes with 0..4 unconstrained positions before the next literal: distances are
+	// counted in runes, and anything that measures a literal run in bytes is off by exactly the extra bytes
+	for _, c := range []string{"é", "中", "😀", "éé", "é中"} {
+		for w := 0; w <= 4; w++ {
+			for _, wild := range []string{".", "[^q]", `\w`} {
+				gap := strings.Repeat(wild, w)
+				add(`[xy]%s%sab`, c, gap)
+				add(`\d%s%sa`, c, gap)
+				add(`.%s%sab`, c, gap)
+				add(`[xy]%s%s%s`, c, gap, c)
+				if w > 0 && wild != "." {
+					add(`[xy]%s%s{%d}ab`, c, wild, w)
+				}
+			}
+		}
+	}
 	seen := map[string]bool{}
 	var out []Pat
 	for _, s := range srcs {
